@@ -136,8 +136,20 @@ def const_of(e):
 def find_method(prog, clsqual, name):
     c = prog.cls(clsqual)
     if name not in c.methods:
+        if name.startswith("_") and not name.startswith("__"):
+            m = prog._by_role("%s.%s" % (clsqual, name))      # a private method may have been renamed: found by what it does
+            if m is not None:
+                return m
         raise AnalysisError("method vanished: %s.%s" % (clsqual, name))
     return c.methods[name]
+
+
+def stamper(prog):
+    """_Error._set (whatever it is called): the method with which the dispatcher stamps an error; None if there is none"""
+    try:
+        return find_method(prog, "exceptions._Error", "_set")
+    except AnalysisError:
+        return None
 
 
 def dispatcher(prog):
